@@ -28,6 +28,9 @@ MUTATIONS = [
     ('text-restored-only-on-success', 'C08', 'emmet/markup/__init__.py',
      "    finally:\n        config.user_config['text'] = text\n    return abbr",
      "    except ValueError:\n        pass\n    config.user_config['text'] = text\n    return abbr"),
+    ('text-restored-in-except-Exception-only', 'C08', 'emmet/markup/__init__.py',
+     "    finally:\n        config.user_config['text'] = text\n    return abbr",
+     "    except Exception:\n        config.user_config['text'] = text\n        raise\n    config.user_config['text'] = text\n    return abbr"),
     ('units-written-into-cached-tokens', 'C08', 'emmet/stylesheet/__init__.py',
      "node.value = [CSSValue(copy_tokens(v.value)) for v in default_value]",
      "node.value = default_value"),
